@@ -22,15 +22,19 @@ TSV = {'Amplitude': 'cluster_Amplitude.tsv', 'ContamPct': 'cluster_ContamPct.tsv
        'KSLabel': 'cluster_KSLabel.tsv'}
 
 
-def make_probe(rng, k, shared, variant):
+def make_probe(rng, k, shared, variant, allow_empty=True):
     """One probe dataset (logical contents + the record the specification sees)."""
     ns = int(rng.randint(2, 9))          # (a one-spike probe is squeezed to 0-d by the merger: degenerate)
     nt = int(rng.randint(2, 5))
     nc = int(rng.randint(2, 5))
-    empty = [nt - 1] if (variant + k) % 3 == 0 else []         # the highest template owns no spike
+    empty = [nt - 1] if ((variant + k) % 3 == 0 and allow_empty) else []         # the highest template owns no spike
     ds = D.random_dense(rng, ns=ns, nt=nt, nc=nc, nsw=shared['nsw'], rate=shared['rate'],
                         whitening='monomial' if shared['wm'][k] else 'none', empty_templates=empty)
     ds['samples'] = np.sort(rng.randint(0, shared['tmax'], size=ns))         # ties within and across probes
+    if (variant + k) % 2 == 0:
+        # a channel map with gaps that need not start at 0 (raw file with more channels than the map)
+        ds['ncdat'] = nc + int(rng.randint(1, 5))
+        ds['chmap'] = rng.permutation(ds['ncdat'])[:nc]
     sc = ds['st'].copy()
     if (variant + k) % 2:                                                    # curated, gapped cluster ids
         sc = sc * 2 + (np.arange(ns) % 2)
@@ -65,7 +69,8 @@ def make_probe(rng, k, shared, variant):
                nch=nc, ntm=nt, chmap=as_list(ds['chmap']), pcind=as_list(ds['pcind']), tfind=as_list(ds['tfind']),
                posx=ints(pos[:, 0]), posy=ints(pos[:, 1]), T=ints(ds['T']),
                wm=ints(ds['wm'], 4) if shared['wm'][k] else [], wmi=ints(ds['wmi_eff'], 4) if shared['wm'][k] else [],
-               sim=ints(ds['sim']) if shared['sim'][k] else [], tsv=tsv_rec, rate=int(shared['rate']), ncdat=nc)
+               sim=ints(ds['sim']) if shared['sim'][k] else [], tsv=tsv_rec, rate=int(shared['rate']),
+               ncdat=int(ds.get('ncdat') or nc))
     return ds, tsv, rec
 
 
